@@ -2,6 +2,7 @@
 C01 C02 C03 C05 C12 C14 C17.  Every Files row is an unconstrained symbolic input, the dependency edges of each target are
 chosen (lazily) among all shapes over N files, and the verdict of the real code is compared, per path class, with a
 reference evaluation written from the documented semantics (apenwarr's isdirty) plus the property-level lemmas."""
+import os
 import z3
 from mirsym.values import *
 from mirsym.engine import PyCallable
@@ -46,7 +47,11 @@ def build_world(eng, nfiles, max_edges, with_always=True, runid=None, fixed=None
                 w.nedges += 1
                 if w.nedges > max_edges:
                     raise PathDead()
-                w.deps[(t, s)] = {'mode': tuple(modes[k]), 'delete_me': 0}
+                # delete_me is set on every edge while the target's script runs (zap_deps1) and stays set after a kill; the
+                # walk must count such edges like any other.  Symbolic 0/1: it only forks if the code looks at it.
+                dm = z3.Int('dm_%d_%d' % (t, s))
+                eng.assume(z3.Or(dm == 0, dm == 1))
+                w.deps[(t, s)] = {'mode': tuple(modes[k]), 'delete_me': dm}
         return th
     for t in ids:
         w.deps_lazy[t] = edges_for(t)
@@ -365,6 +370,27 @@ def make_replay(chk, rep, scn=None):
             c['scenario_output'] = out[-2000:]
             from specs import orchestration
             return orchestration.PREDICATES[c['violated']](out), out[-600:].replace('\n', ' | ')
+        if c.get('kind') == 'subredo' and scn is not None:
+            import shutil
+            import re
+            payload, raw, rc = rep.run('state', 'dbstate_batch', [c['witness']['line']])
+            mdir = [re.search(r'DIR=(\S+)', x) for x in payload]
+            mdir = [x.group(1) for x in mdir if x]
+            if not mdir:
+                return False, 'could not materialise the state: ' + raw[-300:]
+            proj = mdir[0]
+            try:
+                t = c['target_name']
+                with open(os.path.join(proj, t + '.do'), 'w') as fh:
+                    fh.write('echo ran >> %s.ran\nexit 1\n' % t)
+                rcx, out = scn.run_sub_redo(proj, c['runid'], ['redo-ifchange', t])
+                ran = os.path.exists(os.path.join(proj, t + '.ran'))
+                c['scenario_output'] = out[-1500:]
+                return (rcx != c['expect_rc'] or ran), 'real redo-ifchange %s as a sub-redo of run %s on the materialised state: exit %d%s (expected: refused with %d, script not run)' % (
+                    t, c['runid'], rcx, ', the script ran' if ran else '', c['expect_rc'])
+            finally:
+                if proj.startswith('/var/tmp/'):
+                    shutil.rmtree(proj, ignore_errors=True)
         if c.get('kind') in ('record', 'crash', 'buildjob'):
             from specs import buildjob
             return buildjob.make_replay(chk, rep, scn)(c)
